@@ -76,6 +76,14 @@ def make_body(name, script, rec):
                         e = cls(i=next(rec.eid), src=ev.get("i", None))
                         rec.ev("send", step=name, inv=inv, ev=cls.__name__, i=e.i, target=target)
                         ctx.send_event(e, step=target)
+                elif op == "send_same":
+                    # n events with IDENTICAL payload (equal as values, distinct objects)
+                    _, cls, n, target = a
+                    ident = next(rec.eid)
+                    for _ in range(n):
+                        e = cls(i=ident, src=ev.get("i", None))
+                        rec.ev("send", step=name, inv=inv, ev=cls.__name__, i=e.i, target=target)
+                        ctx.send_event(e, step=target)
                 elif op == "publish":
                     e = a[1](i=next(rec.eid))
                     rec.ev("publish", step=name, inv=inv, ev=a[1].__name__, i=e.i)
@@ -118,8 +126,15 @@ def make_body(name, script, rec):
                     _, n, kind = a
                     if rinfo is not None and rinfo.retry_number < n:
                         raise EXN[kind]("fail%d" % rinfo.retry_number)
-                elif op == "on_cancel_publish":
+                elif op in ("on_cancel_publish", "on_cancel_sleep"):
                     pass
+                elif op == "self_cancel":
+                    # the body awaits something that was cancelled (a cancelled future of its own): the worker task ends
+                    # with CancelledError although nobody cancelled the step
+                    if ev.get("i", None) in a[1]:
+                        fut = asyncio.get_running_loop().create_future()
+                        fut.cancel()
+                        await fut
                 elif op == "sleep":
                     await asyncio.sleep(a[1])
                 elif op == "sleep_first":
@@ -140,6 +155,13 @@ def make_body(name, script, rec):
                 elif op == "return_const":
                     outcome = "return-StopEvent"
                     return StopEvent(result=a[1])
+                elif op == "return_lock":
+                    # an event whose payload cannot be deep-copied or pickled (a lock): the engine passes events by reference
+                    import threading
+                    e = a[1](i=next(rec.eid), src=ev.get("i", None), payload=threading.Lock())
+                    outcome = "return-" + a[1].__name__
+                    rec.ev("return", step=name, inv=inv, ev=a[1].__name__, i=e.get("i", None))
+                    return e
                 elif op == "return":
                     cls = a[1]
                     if cls is None:
@@ -155,6 +177,9 @@ def make_body(name, script, rec):
             return None
         except asyncio.CancelledError:
             outcome = "cancelled"
+            for a in acts:
+                if a[0] == "on_cancel_sleep":     # a body that is slow to unwind: clean-up that takes (virtual) time
+                    await asyncio.sleep(a[1])
             for a in acts:
                 if a[0] == "on_cancel_publish":   # user code that publishes while being cancelled (e.g. in a finally block)
                     e = a[1](i=next(rec.eid))
